@@ -5,6 +5,7 @@ import (
 	"fmt"
 	"os"
 	"runtime"
+	"strconv"
 	"strings"
 	"sync"
 	"sync/atomic"
@@ -39,11 +40,16 @@ func genSeq(t *rapid.T) SeqCase {
 	c := SeqCase{}
 
 	for i := 0; i < n; i++ {
-		k := rapid.SampledFrom([]string{"enq", "enq", "enq", "deq", "deq", "all", "req", "req", "depth"}).Draw(t, "k")
+		k := rapid.SampledFrom([]string{"enq", "enq", "enq", "deq", "deq", "all", "req", "req", "depth", "deq", "req", "burst"}).Draw(t, "k")
 		op := Op{K: k}
 
 		if k == "enq" {
 			op.D = genChunk(t)
+		}
+
+		if k == "burst" {
+			// many chunks at once (a fast device and a busy consumer): "D" holds the count
+			op.D = fmt.Sprint(rapid.SampledFrom([]int{70, 130, 600, 1100, 5000, 40000}).Draw(t, "burstN"))
 		}
 
 		c.Ops = append(c.Ops, op)
@@ -57,10 +63,20 @@ func runSeq(c SeqCase) ev.Verdict {
 
 	var model []string
 
-	var last *string // last chunk taken and not yet put back
+	// chunks taken and not yet put back, most recent last: several may be put back in a row
+	var taken []string
+
+	// every slice the queue handed out, with its contents at that moment: they must stay intact
+	type handed struct {
+		b    []byte
+		want string
+	}
+
+	var kept []handed
 
 	reqThenDeq := false
 	prevReq := false
+	burst := 0
 
 	for i, op := range c.Ops {
 		switch op.K {
@@ -87,8 +103,8 @@ func runSeq(c SeqCase) ev.Verdict {
 					return ev.Fail("step %d: Dequeue = %q, model %q", i, got, model[0])
 				}
 
-				s := model[0]
-				last = &s
+				taken = append(taken, model[0])
+				kept = append(kept, handed{got, model[0]})
 				model = model[1:]
 
 				if prevReq {
@@ -107,7 +123,8 @@ func runSeq(c SeqCase) ev.Verdict {
 					return ev.Fail("step %d: DequeueAll = %q, model %q", i, got, want)
 				}
 
-				last = &want
+				taken = append(taken, want)
+				kept = append(kept, handed{got, want})
 				model = nil
 
 				if prevReq {
@@ -115,11 +132,20 @@ func runSeq(c SeqCase) ev.Verdict {
 				}
 			}
 		case "req":
-			if last != nil {
-				q.Requeue([]byte(*last))
-				model = append([]string{*last}, model...)
-				last = nil
+			if n := len(taken); n > 0 {
+				back := taken[n-1]
+				taken = taken[:n-1]
+				q.Requeue([]byte(back))
+				model = append([]string{back}, model...)
 				prevReq = true
+			}
+		case "burst":
+			n, _ := strconv.Atoi(op.D)
+			for j := 0; j < n; j++ {
+				d := fmt.Sprintf("%x.", burst)
+				burst++
+				q.Enqueue([]byte(d))
+				model = append(model, d)
 			}
 		case "depth":
 		}
@@ -143,7 +169,18 @@ func runSeq(c SeqCase) ev.Verdict {
 		return ev.Fail("drain: queue not empty: %q", got)
 	}
 
+	for i, h := range kept {
+		if string(h.b) != h.want {
+			return ev.Fail("the %d. slice the queue handed out read %.40q when it was returned and reads %.40q now", i, h.want, h.b)
+		}
+	}
+
 	v := ev.Verdict{OK: true, NonTrivial: reqThenDeq}
+	if burst > 0 {
+		v.NonTrivial = true
+		v.Classes = append(v.Classes, "deep-queue")
+	}
+
 	if reqThenDeq {
 		v.Classes = append(v.Classes, "requeue-then-dequeue")
 	}
@@ -197,11 +234,11 @@ func enumerate(t *testing.T) {
 
 // ConcCase is a concurrent producer/consumer program.
 type ConcCase struct {
-	Produce  []string `json:"produce"`
-	Consume  []Op     `json:"consume"`
-	Procs    int      `json:"procs"`
-	Reps     int      `json:"reps"`
-	ProdYield []int   `json:"prod_yield"` // yield after these producer indices
+	Produce   []string `json:"produce"`
+	Consume   []Op     `json:"consume"`
+	Procs     int      `json:"procs"`
+	Reps      int      `json:"reps"`
+	ProdYield []int    `json:"prod_yield"` // yield after these producer indices
 }
 
 func genConc(t *rapid.T) ConcCase {
